@@ -309,4 +309,15 @@ def rules(ctx, tier):
             for o in x.obs:
                 o.scenario = x.scenario
             out.append(x)
+
+    # the counts the reclamation decision rests on survive a restart: the snapshot loader bumps the count of every
+    # loaded key's hash once (shared with C02-R5 / C12-R3)
+    from . import c02
+    r = Rule("R7", "reference counts after a reopen are again 'number of keys per hash': the loader fills the key map and "
+                   "bumps the count of each loaded key's hash exactly once",
+             "after a checkpoint and reopen a hash shared by n keys has count 1: removing one sharer unlinks the blob "
+             "the others still reference (or the count stays high and the blob is never reclaimed)")
+    c02.loader_refcounts(ctx, r, c02.snapshot_loader(ctx))
+    r.need(2, "loader fills the map + refcount per key")
+    out.append(r.finish())
     return out
